@@ -43,7 +43,7 @@ func buildRef() {
 		if isStateful(s.Name) {
 			continue
 		}
-		for _, en := range entries {
+		for _, en := range entriesOf(s.Name) {
 			// e1: all calls in catalogue order on one runtime; e2: a second runtime, native log, after a probe
 			a := e1.exec(en, s.Name)
 			e2.setLog(false)
@@ -210,9 +210,9 @@ func (w *world) judgeCall(c Call, probe bool) (o *outcome, fails []failure) {
 // oracle failing for a generator shape and for a plain shape are different findings).
 func family(shape string) string {
 	switch shape {
-	case "generator", "genreturn", "yieldstar", "gendelegates", "globalgen", "paraminit":
+	case "generator", "genreturn", "yieldstar", "gendelegates", "globalgen", "paraminit", "S_gen":
 		return "generator"
-	case "async", "asyncreject", "asyncchain", "promises", "iterbuiltins", "pending":
+	case "async", "asyncreject", "asyncchain", "promises", "iterbuiltins", "pending", "S_async":
 		return "async"
 	}
 	return "sync"
